@@ -69,6 +69,7 @@ static thrd_ret_t THREAD_CALL_CONV parallel_thread_run(void *rid_arg)
 		mpi_remote_msg_handle();
 
 		unsigned i = 64;
+		VERIF_BATCH(i);
 		while(i--)
 			process_msg();
 
